@@ -40,7 +40,7 @@ import (
 var (
 	c07SDK        = []string{"2026-07-28", "2025-11-25", "2025-06-18", "2025-03-26", "2024-11-05"}
 	c07Requested  = []string{"", "2026-07-28", "2025-11-25", "2025-06-18", "2025-03-26", "2024-11-05", "2020-01-01", "2025-07-01", "2099-12-31", "zzz", "1.0", "2026-07-29", c07EmptyOptions}
-	c07Transports = []string{"mem", "mem-legacy", "mem-legacy-logged", "pipe", "pipe-legacy", "pipe-legacy-logged", "pipe-legacy-clientfirst", "sse", "http", "http-json", "http-es", "http-json-es", "http-nosid", "http-nosid-json", "http-stateless", "http-stateless-json", "http-stateless-es"}
+	c07Transports = []string{"mem", "mem-logged", "mem-legacy", "mem-legacy-logged", "pipe", "pipe-logged", "pipe-legacy", "pipe-legacy-logged", "pipe-legacy-clientfirst", "sse", "http", "http-json", "http-es", "http-json-es", "http-nosid", "http-nosid-json", "http-stateless", "http-stateless-json", "http-stateless-es"}
 	c07Priors     = []string{"none", "stateless-first", "stateful-open", "stateless-open", "sse-first", "trimmed-probe", "same-client-sse-first"}
 	c07Discovers  = []string{"ok", "notfound", "invalid-params", "unsupported-data", "unsupported-data-always", "unsupported-nodata", "internal", "unsupported-data-sdkwide"}
 	c07Sets       = [][]string{
@@ -224,7 +224,8 @@ type c07SearchResult struct {
 func c07Client(handlers bool) *mcp.Client {
 	var opts *mcp.ClientOptions
 	if handlers {
-		opts = &mcp.ClientOptions{ToolListChangedHandler: func(context.Context, *mcp.ToolListChangedRequest) {}, ResourceListChangedHandler: func(context.Context, *mcp.ResourceListChangedRequest) {}}
+		opts = &mcp.ClientOptions{ToolListChangedHandler: func(context.Context, *mcp.ToolListChangedRequest) {}, ResourceListChangedHandler: func(context.Context, *mcp.ResourceListChangedRequest) {},
+			KeepAlive: time.Hour} // an application option that has nothing to do with versions
 	}
 	cl := mcp.NewClient(&mcp.Implementation{Name: "c", Version: "1"}, opts)
 	mcp.AddSendingCustomMethod[*c07SearchParams, *c07SearchResult](cl, "acme/search")
@@ -342,7 +343,7 @@ func runC07Real(c *vh.Case, spec c07Spec) {
 	var err error
 	modernCapable := true
 	switch spec.Transport {
-	case "mem", "mem-legacy", "pipe", "pipe-legacy", "mem-legacy-logged", "pipe-legacy-logged", "pipe-legacy-clientfirst":
+	case "mem", "mem-logged", "mem-legacy", "pipe", "pipe-logged", "pipe-legacy", "mem-legacy-logged", "pipe-legacy-logged", "pipe-legacy-clientfirst":
 		var st, ct mcp.Transport
 		if strings.HasPrefix(spec.Transport, "mem") {
 			st, ct = mcp.NewInMemoryTransports()
@@ -357,7 +358,8 @@ func runC07Real(c *vh.Case, spec c07Spec) {
 			modernCapable = false
 		}
 		if strings.HasSuffix(spec.Transport, "-logged") {
-			// the SDK's own logging wrapper around a transport that cannot serve the sessionless protocol
+			// the SDK's own logging wrapper, on the server's side, around a transport that cannot serve the sessionless
+			// protocol (-legacy-logged) or around one that can (-logged)
 			st = &mcp.LoggingTransport{Transport: st, Writer: io.Discard}
 		}
 		var early chan struct{}
